@@ -432,6 +432,7 @@ class SVEval:
                 clo = e["args"][0]
                 params = [b for p in clo["params"] for b in pat_bindings(p)]
                 outs = []
+                self._force_opt = False
                 for (c, v, r, en) in self.eval_opt(recv, o):
                     if r or v[0] == "none":
                         outs.append((c, v, r, en))
@@ -748,6 +749,25 @@ class SVEval:
             return [([], ("iter", v[1] if v and v[0] in ("sub", "var") else rt, is_sub), False, env)]
         if m == "get" and len(e["args"]) == 1:
             return [([], ("opaque", expr_text(e)), False, env)]
+        if m in ("ok_or", "ok_or_else") and e["args"] and (self.is_optionish(recv) or (recv.get("k") == "mcall" and recv["method"] in ("map", "and_then") and recv["args"] and recv["args"][0].get("k") == "closure")):
+            # Option -> Result: the payload on the Some path, the error value otherwise
+            outs = []
+            self._force_opt = True
+            try:
+                alts = self.eval_opt(recv, o)
+            finally:
+                self._force_opt = False
+            for (c, v, r, en) in alts:
+                if r:
+                    outs.append((c, v, r, en))
+                elif v[0] == "opt":
+                    outs.append((c, v[1], False, en))
+                else:
+                    d_ = e["args"][0]
+                    body = d_["body"] if d_.get("k") == "closure" else d_
+                    for (c2, v2, r2, en2) in self.eval(body, Outcome(o.conds + c, dict(en))):
+                        outs.append((c + c2, ("call", "Err", [v2 if v2 is not None else ("opaque", "err")]), r2, en))
+            return outs[:MAX_PATHS]
         if m in ("unwrap_or", "unwrap_or_else") and e["args"] and self.is_optionish(recv):
             outs = []
             dflt = e["args"][0]
@@ -805,6 +825,19 @@ class SVEval:
     def eval_call(self, e, o):
         env = o.env
         f = expr_text(e["func"])
+        if len(e["args"]) == 1 and f.split("::")[-1] in ("String", "Some", "Ok", "from", "new") or (len(e["args"]) == 1 and f in ("Value::String", "serde_json::Value::String", "tera::Value::String")):
+            # a wrapper around one value: every alternative of the value is an alternative of the wrapped value
+            alts = self.eval(e["args"][0], o)
+            if len(alts) > 1:
+                outs = []
+                for (c, v, r, en) in alts:
+                    if r:
+                        outs.append((c, v, r, en))
+                    elif f in ("String::from", "Some", "Ok", "Box::new", "String::new"):
+                        outs.append((c, v, False, en))
+                    else:
+                        outs.append((c, ("call", f, [v]), False, en))
+                return outs[:MAX_PATHS]
         args = [self.first(a, o) for a in e["args"]]
         import srclib as _sl
         last = f.split("::")[-1]
